@@ -225,6 +225,10 @@ pub fn gen_slot(r: &mut Rng, mode: Mode) -> SlotCfg {
             for d in data.iter_mut() {
                 *d = (*d * 10.0).round();
             }
+        } else if r.chance(1, 30) && total > 0 {
+            // a non-finite data value somewhere (legal data; results are NaN/inf around it)
+            let i = r.below(total);
+            data[i] = *r.pick(&[f64::NAN, f64::INFINITY, f64::NEG_INFINITY]);
         }
         let extrapolate = r.chance(1, 2);
         let bc = if kind == Kind::Spline {
